@@ -70,10 +70,6 @@ class HookPath(_PosixPath):
         if eng is not None and self.name.endswith(".token"):
             eng._file_deleted(self.name)
 
-    def write_text(self, data, *a, **kw):
-        with self.open("w") as f:
-            return f.write(data)
-
 
 class _HalfFile:
     def __init__(self, f, path, eng):
@@ -161,6 +157,7 @@ class MultiWorld(schedeng.World):
         self.viol = []  # (prop, key, what)
         self.observer_died = False
         self.ptoks = []
+        self.all_tokens = []
         for s in range(self.ns):
             self.T[s] = self._new_token(s)
             pt = []
@@ -172,6 +169,7 @@ class MultiWorld(schedeng.World):
         HookPath.engine = self
         self.jobsched = {}
         self.gone_orphans = set()
+        self.ended = set()  # jobs whose process has exited
 
     # -- construction helpers -------------------------------------------------------------------------
     def _new_sched(self, s, first=False):
@@ -239,6 +237,7 @@ class MultiWorld(schedeng.World):
             world.notified = True
             return real_notify()
         T.acquire, T.release, T.aio_notify = acquire, release, notify
+        self.all_tokens.append(T)
         return T
 
     def _watch(self, tf):
@@ -306,6 +305,7 @@ class MultiWorld(schedeng.World):
         return {"disk": disk, "procs": procs, "ipc": list(self.ipc) if self.ipc else None, "active": sorted(self.active)}
 
     def _log(self, op, out):
+        self._reconcile()  # e.g. `TokenFile.delete()` of a file read through a plain `Path(event.src_path)`
         o = self.tobs()
         self.oplog.append((op, out, o))
         self._monitor_disk(o)
@@ -416,6 +416,7 @@ class MultiWorld(schedeng.World):
                 owner = job
             r = f(*a, **kw)
             if owner is not None:
+                self.ended.add(owner.idx)
                 self._job_gone(owner.js["ident"])
             elif name == "lock (aexit)":
                 job = getattr(f.__self__, "job", None)
@@ -438,6 +439,7 @@ class MultiWorld(schedeng.World):
         elif k == "jobgone":
             job = self.jobs[ev[1]]
             self.gone_orphans.add(ev[1])
+            self.ended.add(ev[1])
             self._job_gone(job.js["ident"])
         elif k == "drop":
             s = ev[1]
@@ -469,18 +471,13 @@ class MultiWorld(schedeng.World):
         held = 0
         who = []
         for idx, job in self.jobs.items():
-            if job.state == JobState.RUNNING and idx not in self.gone_orphans:
+            if job.launches > 0 and idx not in self.ended:  # between launch and process exit
                 c = self.req.get(job.js["ident"], 0)
                 held += c
                 if c:
                     who.append(idx)
         if held > self.total:
             self.viol.append(("C08", "capacity-exceeded", f"jobs {who} of all schedulers run together and hold {held} > total {self.total}"))
-        for s in range(self.ns):
-            pass
-
-    def is_orphan_running(self, idx):
-        return self.dropped_at.get(idx) is not None
 
     def choices(self, pending_submits, faults=None):
         """enabled events; `faults` = {"drop": bool, "race": bool, "restart": bool}"""
@@ -491,7 +488,7 @@ class MultiWorld(schedeng.World):
                 ch.append(["step", s])
         ch += [["deliver", i] for i in range(len(self.threads))]
         for j in pending_submits:
-            if not self.dropped[self.mspec["jobs"][j]["sched"]]:
+            if self._submittable(j):
                 ch.append(["submit", j])
                 break
         for p in range(self.ns):
@@ -505,6 +502,12 @@ class MultiWorld(schedeng.World):
             if job.state == JobState.RUNNING and idx not in self.gone_orphans and self._orphan(idx):
                 ch.append(["jobgone", idx])
         return ch
+
+    def _submittable(self, j):
+        js = self.mspec["jobs"][j]
+        if self.dropped[js["sched"]]:
+            return False
+        return all(d[0] != "j" or (d[1] in self.jobs and not self._orphan(d[1])) for d in js["deps"])
 
     def _orphan(self, idx):
         """a launched job whose scheduler died before seeing its end"""
@@ -539,23 +542,22 @@ class MultiWorld(schedeng.World):
     def close(self):
         HookPath.engine = None
         tokens.ipcom, TokenFile.watch = self._saved_tok
-        for loop in self.all_loops:
-            if loop is not self.loop:
-                for t in list(self.tasks.values()):
-                    pass
+        for T in self.all_tokens:  # coroutines abandoned with a dead scheduler must not touch the directory any more
+            T.acquire = T.release = lambda dep: None
         for t in list(self.tasks.values()):
             if not t.done():
                 try:
-                    t.cancel()
-                except Exception:
+                    t.get_coro().close()
+                except BaseException:
                     pass
+        self.tasks = {}
+        super().close()
         for loop in self.all_loops:
             if loop is not self.loop:
                 try:
                     loop.close()
                 except Exception:
                     pass
-        super().close()
 
 
 def quiescence_monitors(w, submitted_all):
@@ -573,12 +575,21 @@ def quiescence_monitors(w, submitted_all):
         fits = all(d[0] != "f" or d[1] <= w.total for d in js["deps"])
         deps_ok = all(d[0] != "j" or (so[d[1]] and so[d[1]]["state"] == "DONE") for d in js["deps"])
         ptok_ok = all(d[0] != "t" or d[2] <= w.ptoks[s][d[1]].available for d in js["deps"])
-        if fits and deps_ok and ptok_ok and not o["disk"]:
+        silent = [op for op, out, _ in w.oplog if op[0] == "release" and op[1] == s and not out["ok"] and not out["notify"]]
+        if fits and deps_ok and ptok_ok and not o["disk"] and silent:
+            fails.append(("C09", "release-of-reclaimed-token-does-not-notify",
+                          f"scheduler {s} released the token of job {silent[0][2]} after a foreign watcher had already removed its file: "
+                          f"release() returned without aio_notify(), so job {i} of the same scheduler stays {x['state']} "
+                          f"(unsatisfied={x['unsat']}) although nothing runs, no token file is left and its in-memory "
+                          f"available is {w.T[s].available} of {w.total}"))
+        elif fits and deps_ok and ptok_ok and not o["disk"]:
             fails.append(("C09", "waiting-job-never-launched",
                           f"nothing left to run, no token file on disk, but job {i} of scheduler {s} is {x['state']} "
                           f"(unsatisfied={x['unsat']}, in-memory available={w.T[s].available} of {w.total})"))
         else:
             fails.append(("C09", "hang", f"nothing left to run but job {i} of scheduler {s} is {x['state']} (unsatisfied={x['unsat']})"))
+    if any(f[1] != "hang" for f in fails):
+        fails = [f for f in fails if f[1] != "hang"]  # jobs waiting behind an identified cause
     if o["disk"]:
         fails.append(("C09", "token-file-left", f"token files {o['disk']} remain although nothing is left to run"))
     if not hanging and not o["disk"]:
@@ -642,7 +653,7 @@ def run_replay(spec, events, complete=True, max_events=3000):
     def chooser(w, ch, fch):
         while queue:
             cand = queue.pop(0)
-            if cand in ch or cand[0] in ("drop", "restart", "race"):
+            if cand in ch or cand in fch:
                 return cand
         if not complete:
             return None
